@@ -706,6 +706,17 @@ fn w_sampled_short() -> bool {
     println!("sampled function declaring 1000 samples with 1 byte of data, applied at 0.9 -> {:?}", short(res));
     false
 }
+/// a sampled function with /Size [0] and no /Encode: the default encode array is built from `n - 1`
+fn w_sampled_size_zero() -> bool {
+    use pdf::object::*;
+    let file = load(&[(5, "<< /FunctionType 0 /Domain [0 1] /Range [0 1] /Size [0] /BitsPerSample 8 /Length 2 >>\nstream\nAB\nendstream")]);
+    let r = file.resolver();
+    let res = std::panic::catch_unwind(std::panic::AssertUnwindSafe(|| {
+        Function::from_primitive(pdf::primitive::Primitive::Reference(PlainRef { id: 5, gen: 0 }), &r).map(|_| ())
+    }));
+    println!("sampled function with /Size [0] and no /Encode, loaded -> {}", match &res { Ok(r) => format!("{:?}", r.as_ref().map_err(|e| e.to_string())), Err(_) => "PANIC".to_string() });
+    res.is_err()
+}
 /// a literal string made of N line continuations (backslash + LF): the string scanner re-enters itself once per continuation
 fn w_string_continuations() -> bool {
     let n: usize = std::env::var("DEPTH").ok().and_then(|s| s.parse().ok()).unwrap_or(400000);
@@ -875,6 +886,7 @@ fn main() {
         ("ps_parse", w_ps_parse),
         ("sampled_short", w_sampled_short),
         ("sampled_domain", w_sampled_domain),
+        ("sampled_size_zero", w_sampled_size_zero),
         ("string_continuations", w_string_continuations),
         ("jbig2_globals_cycle", w_jbig2_globals_cycle),
         ("descendant_fonts_cycle", w_descendant_fonts_cycle),
